@@ -1460,11 +1460,34 @@ func ruleIVBytes(c *Ctx, r *Report) {
 	for _, b := range f.Blocks {
 		for _, ins := range b.Instrs {
 			call, ok := ins.(*ssa.Call)
-			if !ok || !strings.HasSuffix(calleeName(call.Common()), ".ReadBytes") {
+			if !ok {
 				continue
 			}
 			args := call.Call.Args
-			cs, ok := constSet(args[len(args)-1], 0)
+			if len(args) == 0 {
+				continue
+			}
+			var cs []int64
+			if strings.HasSuffix(calleeName(call.Common()), ".ReadBytes") {
+				cs, ok = constSet(args[len(args)-1], 0)
+			} else if g := call.Call.StaticCallee(); g != nil && inRepo(g) {
+				// a helper that reads IVs of the size it is given: the parameter reaches ReadBytes
+				ok = false
+				for i, a := range args {
+					k, isK := constSet(a, 0)
+					if !isK || len(k) != 1 || i >= len(g.Params) {
+						continue
+					}
+					for _, rb := range callsIn(g, ".ReadBytes", false) {
+						ra := rb.Common().Args
+						if stripConv(ra[len(ra)-1]) == ssa.Value(g.Params[i]) {
+							cs, ok = k, true
+						}
+					}
+				}
+			} else {
+				continue
+			}
 			if !ok || len(cs) != 1 {
 				continue
 			}
